@@ -278,13 +278,58 @@ theorem reach_spec (t : Items) (r : Nat) (pos neg : List Str) (hc : ∀ x ∈ po
 
 example : witnessF16.reach [] [['M','3']] = [0, 1] ∧ witnessF16.reach [['M','3']] [] = [] := by decide
 
-/-- what `simplecpp::preprocess` finally sees: a macro in `-U` is defined in no analysed configuration,
-    a macro in `-D` (and not in `-U`) in every one -/
-theorem U_effective (inp : Inp) (c X : Str) (h : X ∈ inp.undefs) : effDefines inp c X = false := by
-  simp [effDefines, h]
+/-! ### the property end to end: coverage composed with the budget -/
 
-theorem D_effective (inp : Inp) (c X : Str) (h : defines inp.userDefines X = true) (hu : X ∉ inp.undefs) :
-    effDefines inp c X = true := by
-  simp [effDefines, h, hu]
+/-- the number of extracted configurations is bounded by a syntactic measure of the file: one per `#if..` line and one
+    per `#else` line besides the empty configuration (3 sibling `#ifdef`s give 4 configurations, not 2^3) — this is how
+    "the number of guard combinations" of the property statement is read -/
+theorem length_getConfigs_le (inp : Inp) (t : Items) : (getConfigs inp t.flatten).length ≤ 1 + 2 * t.macros.length :=
+  length_getConfigsWith_le Flags.code inp t
+
+/-- **headline theorem (partial: F16 excluded by `ndLeaf`)**: in every file of the family whose `#if !defined` conditionals
+    contain regions only, every region is *analysed* in at least one configuration when the extracted configurations
+    fit `--max-configs` -/
+theorem every_region_analysed_partial (o : CliOpts) (d0 : List Str) (t : Items)
+    (hf : inFamily (o.inp d0) t = true) (hl : ndLeaf t = true)
+    (hb : (getConfigs (o.inp d0) t.flatten).length ≤ o.maxConfigs) :
+    ∀ r ∈ t.regions, ∃ c ∈ analysed o (getConfigs (o.inp d0) t.flatten), live c t r = true := by
+  intro r hr
+  have hud : o.userDefines = [] := by
+    simp only [inFamily, Bool.and_eq_true, List.isEmpty_iff] at hf
+    exact hf.1.1
+  exact covered_within_budget Flags.code o d0 t hud hb r (every_region_covered_fixElse (o.inp d0) t hf hl r hr)
+
+/-- the same with the budget stated on the input: at most `(maxConfigs - 1) / 2` conditionals -/
+theorem every_region_analysed_of_size_partial (o : CliOpts) (d0 : List Str) (t : Items)
+    (hf : inFamily (o.inp d0) t = true) (hl : ndLeaf t = true)
+    (hb : 1 + 2 * t.macros.length ≤ o.maxConfigs) :
+    ∀ r ∈ t.regions, ∃ c ∈ analysed o (getConfigs (o.inp d0) t.flatten), live c t r = true :=
+  every_region_analysed_partial o d0 t hf hl (Nat.le_trans (length_getConfigs_le _ t) hb)
+
+example : let o : CliOpts := { maxConfigsOption := 64 }
+    inFamily (o.inp []) witnessF15 = true ∧ ndLeaf witnessF15 = true ∧ 1 + 2 * witnessF15.macros.length ≤ o.maxConfigs := by decide
+example : let o : CliOpts := {}
+    inFamily (o.inp []) witnessF15 = true ∧ (getConfigs (o.inp []) witnessF15.flatten).length ≤ o.maxConfigs := by decide
+
+/-- the full end-to-end statement (without `ndLeaf`) is false of the code: F16 -/
+theorem every_region_analysed_counterexample :
+    ¬ ∀ (o : CliOpts) (d0 : List Str) (t : Items), inFamily (o.inp d0) t = true →
+        (getConfigs (o.inp d0) t.flatten).length ≤ o.maxConfigs →
+        ∀ r ∈ t.regions, ∃ c ∈ analysed o (getConfigs (o.inp d0) t.flatten), live c t r = true := by
+  intro h
+  have := h {} [] witnessF16 (by decide) (by decide) 1 (by decide)
+  revert this
+  decide
+
+/-- naming per convention: the main coverage theorem carries the excluding hypothesis `ndLeaf` -/
+theorem every_region_covered_ndLeaf_partial (inp : Inp) (t : Items) (hf : inFamily inp t = true) (hl : ndLeaf t = true) :
+    ∀ r ∈ t.regions, ∃ c ∈ getConfigs inp t.flatten, live c t r = true :=
+  every_region_covered_fixElse inp t hf hl
+
+/-- `live` (theorem side, `defines c`) is what the driver prints (`emit (effDefines inp c)`) for the family: without `-D`
+    and for macros that are not `-U`ndefined the two notions of "defined" coincide -/
+theorem live_spec_eq_driver (inp : Inp) (c x : Str) (hud : inp.userDefines = []) (hx : x ∉ inp.undefs) :
+    effDefines inp c x = defines c x :=
+  effDefines_eq_defines inp c x hud hx
 
 end Cppcheck.Configs
